@@ -65,9 +65,9 @@ Theorem C11_esubst_semantic : forall D app_i sym_i av, av_ok D av -> forall p x 
   apply_esubst gs p x (EVar z) = Some q ->
   seq D (eval D app_i sym_i av q v) (eval D app_i sym_i av p (upd_e D v x (ve D v z))).
 Proof. intros D a s av Hav. exact (esubst_sound D a s av Hav gs eq_refl). Qed.
-Theorem C11_inst_semantic : forall D app_i sym_i av vars plugs, av_ok D av -> forall p q v, evp p = true ->
+Theorem C11_inst_semantic : forall D app_i sym_i av vars plugs, av_ok D av -> forall p q v,
   inst gs p vars plugs = Some q ->
-  seq D (eval D app_i sym_i av q v) (eval D app_i sym_i (av_upd D app_i sym_i av vars plugs) p v).
+  seq D (eval D app_i sym_i av q v) (eval D app_i sym_i (av_upd D app_i sym_i gs av vars plugs) p v).
 Proof. intros D a s. exact (inst_sound D a s gs eq_refl eq_refl eq_refl eq_refl). Qed.
 Print Assumptions C11_inst_semantic.
 
